@@ -549,7 +549,7 @@ func ReplayAll(t *testing.T) {
 		}
 		fmt.Printf("REPLAY file=%s prop=%s verdict=%s class=%s\n", f, rf.Prop, verdict, class)
 		if msg != "" {
-			fmt.Printf("REPLAY-MSG %s\n", strings.ReplaceAll(firstLines(msg, 8), "\n", "\nREPLAY-MSG "))
+			fmt.Printf("REPLAY-MSG %s\n", strings.ReplaceAll(firstLines(msg, 120), "\n", "\nREPLAY-MSG "))
 		}
 	}
 }
